@@ -6,6 +6,7 @@
   `Nng.MsgSpec` is the specification "a pair of byte strings".
 -/
 import NngModel.Proofs.MsgStep
+import NngModel.Generated.Base
 namespace Nng.C17
 open Nng Nng.Msg Nng.MsgSpec
 
